@@ -170,9 +170,9 @@ impl<'a, 'b> Exec<'a, 'b> {
             }
             self.slots[slot].crossed_deep = false;
         }
-        if matches!(op, Op::Reset) {
+        if matches!(op, Op::Reset | Op::Reopen) {
             self.slots[slot].crossed_deep = false;
-            self.ctx.count("resets", 1);
+            self.ctx.count(if matches!(op, Op::Reset) { "resets" } else { "reopens(into_reader.into_cursor)" }, 1);
         }
         match (expect, got) {
             (Some(exp), Ok(g)) => {
